@@ -301,6 +301,79 @@ func (w *world) reapExpired(ks []string, deadline time.Time, phase string) {
 	}
 }
 
+// readDuringMove holds the sender of the next primary table move at the point where it has exported the table (it holds its
+// fragment lock; nothing has been sent yet), starts a read of every live key of that partition through every member, lets
+// the move go on and records what the reads answered.  A read that began before the table arrived at the new owner and
+// reaches the previous owner after it dropped the table must still find the value.
+func (w *world) readDuringMove(ctl *sched.Controller, phase string) {
+	c := w.c
+	names := map[string]bool{}
+	for _, m := range c.Live() {
+		names[m.Name] = true
+	}
+	g := ctl.Hold("move.exported", 0, func(kv []any) bool {
+		n, _ := kv[0].(string)
+		d, _ := kv[1].(string)
+		kind, _ := kv[3].(string)
+		return names[n] && d == w.dm && kind == "Primary"
+	})
+	done := make(chan struct{})
+	go func() { c.Balance(); close(done) }()
+	kv, hit := g.WaitArrived(2 * time.Second)
+	if !hit {
+		g.Release()
+		<-done
+		return
+	}
+	partID, _ := kv[2].(uint64)
+	type res struct {
+		k    string
+		from int
+		v    string
+		ret  string
+	}
+	var wg sync.WaitGroup
+	var mu sync.Mutex
+	var out []res
+	n := 0
+	for _, k := range w.keys {
+		if partitions.HKey(w.dm, k)%c.Opts.Partitions != partID || w.lastPut[k] == "" || n >= 4 {
+			continue
+		}
+		n++
+		for _, m := range c.Live() {
+			d := w.client(m)
+			wg.Add(1)
+			go func(k string, m *cluster.Member, d olric.DMap) {
+				defer wg.Done()
+				var g *olric.GetResponse
+				err := guarded(func() error { var e error; g, e = d.Get(context.Background(), k); return e })
+				r := res{k: k, from: m.Index, v: "nil", ret: "notfound"}
+				if err == nil {
+					r.ret = "val"
+					r.v, _ = g.String()
+				} else if transport(err) || err == errHang {
+					return
+				} else if err != olric.ErrKeyNotFound {
+					r.ret = classify(err)
+				}
+				mu.Lock()
+				out = append(out, r)
+				mu.Unlock()
+			}(k, m, d)
+		}
+	}
+	time.Sleep(40 * time.Millisecond) // the reads have looked at the new owner's fragment and wait for the previous owner's
+	g.Release()
+	wg.Wait()
+	<-done
+	w.step(phase)
+	for _, r := range out {
+		w.evals++
+		w.w.Emit(trace.Ev{"t": "read", "k": r.k, "from": r.from, "v": r.v, "ret": r.ret, "phase": phase, "settled": !w.unsettled, "live": len(c.Live())})
+	}
+}
+
 func (w *world) readAll(phase string) {
 	ctx := context.Background()
 	if os.Getenv("VERIF_DEBUG_LOST") != "" {
@@ -649,6 +722,9 @@ func TestC03(t *testing.T) {
 							} else {
 								g.Release()
 							}
+						}
+						if joined && !w.unsettled && rng.Intn(2) == 0 {
+							w.readDuringMove(ctl, fmt.Sprintf("reads that overlap a table move (balancer run %d)", mv))
 						}
 						c.Balance()
 						if !w.waitViews() {
